@@ -410,23 +410,7 @@ def run(cx):
         want = py_to_tree(ast.parse(src, mode="eval").body)
         r.check(got == want, f"shape[{src}]", (pm, tce), f"`{src}` is emitted as `{txt}` which C++ parses as {show(got) if got else '?'}; Python's structure is {show(want)}" + (" (C++ reads `--`/`++` as a decrement/increment of the variable, not as two signs)" if ("--" in txt or "++" in txt) else ""), sample=f"{src} -> {txt}")
 
-    # ---- C01-IR-EXH --------------------------------------------------------------------------
-    r = cx.rule("C01-IR-EXH", "every IR class the parser can construct is consumed by an emitter arm (or is a container consumed by emit()/a parent arm): a statement cannot be built and then dropped", floor=55, exhaustive=True)
-    built = {call_name(c) for c in ast.walk(pm.tree) if isinstance(c, ast.Call) and call_name(c) in am.classes}
     eb = em.func("_emit_block")
-    arms = set()
-    for n in ast.walk(eb):
-        if isinstance(n, ast.Call) and call_name(n) == "isinstance" and len(n.args) == 2 and norm(n.args[0]) == "node" and isinstance(n.args[1], ast.Name):
-            arms.add(n.args[1].id)
-    containers = {"Program": "emit()", "ConditionalBranch": "IfStatement arm", "CatchClause": "TryStatement arm", "FunctionDef": "emit()"}
-    for c in sorted(built):
-        if c in containers:
-            r.ok(f"{c}: container consumed by {containers[c]}")
-            continue
-        r.check(c in arms, f"ir[{c}]/has-emitter-arm", (em, eb), f"the parser builds {c} nodes but _emit_block has no arm for them: the statement is silently dropped")
-    cx.extra["ir_classes_built"] = len(built)
-    cx.extra["emitter_arms"] = len(arms)
-
     # ---- C01-CHILD ---------------------------------------------------------------------------
     r = cx.rule("C01-CHILD", "control-flow arms emit every child block exactly once, in declaration order, with one header per branch/handler; the promotion rewriter rebuilds every child block", floor=12)
     S = cls["Sleep"]
@@ -508,6 +492,7 @@ def run(cx):
         return None
 
     n_classes = set()
+    emitted_classes = set()
     for label, setup_, loop_, _kw in c06.programs_for_schema("quick"):
         seq = loop_ if loop_ else setup_
         if not seq:
@@ -515,6 +500,11 @@ def run(cx):
         node = seq[-1]
         cn = type(node).__name__
         if cn.endswith("Decl") and cn != "VarDecl":
+            # declarations: some variant must leave a trace in the sketch (which variants configure what is C05's subject)
+            full = pe.emit_program(setup=setup_, loop=loop_)
+            base = pe.emit_program(setup=setup_[:-1], loop=[]) if not loop_ else pe.emit_program(setup=setup_, loop=loop_[:-1])
+            if not full.raised and (base.raised or full.text != base.text):
+                emitted_classes.add(cn)
             continue
         full = pe.emit_program(setup=setup_, loop=loop_)
         if full.raised:
@@ -522,12 +512,31 @@ def run(cx):
         base = pe.emit_program(setup=setup_[:-1], loop=[]) if not loop_ else pe.emit_program(setup=setup_, loop=loop_[:-1])
         n_classes.add(cn)
         if base.raised or full.text != base.text:
+            emitted_classes.add(cn)
             r.ok(cn)
             continue
         why = documented_noop(label, node)
         r.check(why is not None, f"arm[{cn}]/silent[{label[len(cn):][:80]}]", (em, eb), f"`{label}` leaves the sketch unchanged: the statement would vanish from the firmware", sample=f"{cn}: silent only when {why}")
     if len(n_classes) < 40:
         raise AnalysisError(f"only {len(n_classes)} statement classes were emitted")
+
+    # ---- C01-IR-EXH --------------------------------------------------------------------------
+    # by evaluation: every IR class of ast.py (what the parser can construct) leaves a trace in the sketch in at least one
+    # variant - however the emitter dispatches on node types (isinstance chain, table, ...)
+    r = cx.rule("C01-IR-EXH", "every IR class the parser can construct is consumed by the emitter: emitted after its declaration, at least one variant of the node changes the sketch (containers are consumed by emit() or their parent arm): a statement cannot be built and then dropped", floor=55, exhaustive=True)
+    built = {call_name(c) for c in ast.walk(pm.tree) if isinstance(c, ast.Call) and call_name(c) in am.classes} | {c for c in am.classes if c in cls}
+    containers = {"Program": "emit()", "ConditionalBranch": "IfStatement arm", "CatchClause": "TryStatement arm", "FunctionDef": "emit()"}
+    control = {"IfStatement", "WhileLoop", "ForRangeLoop", "TryStatement", "BreakStmt", "ReturnStmt"}      # decided by C01-CHILD / C07-EMIT on extracted sketches
+    for c in sorted(built):
+        if c in containers:
+            r.ok(f"{c}: container consumed by {containers[c]}")
+            continue
+        if c in control and c not in emitted_classes:
+            r.ok(f"{c}: control flow, emitted shape decided by C01-CHILD")
+            continue
+        r.check(c in emitted_classes, f"ir[{c}]/has-emitter-arm", (em, eb), f"the parser builds {c} nodes but no variant of the node changes the emitted sketch: the statement is silently dropped")
+    cx.extra["ir_classes_built"] = len(built)
+    cx.extra["ir_classes_emitted"] = len(emitted_classes)
 
     # ---- C01-ORDER ---------------------------------------------------------------------------
     r = cx.rule("C01-ORDER", "statement and line lists only grow at the end (append/extend); node lists are walked forwards", floor=20)
@@ -550,7 +559,7 @@ def run(cx):
 
     # ---- C01-FOLD (shared with C03): a value folded at transpile time is the value Python computes at that point ------
     from . import c03
-    c03.rule_fold_sites(cx, "C01")
+    c03.rule_flow_scripts(cx, "C01")
     c03.rule_global_init(cx, "C01-GLOBAL-INIT")
 
     # ---- C01-DISPATCH (shared with C07) ------------------------------------------------------
